@@ -127,8 +127,8 @@ def Wfl.srcTail (G : GLang) (c : GCfg) (root : Node) (origin : Option Node) (g0 
     Except GErr (GState × Nat) :=
   let g := { g0 with srcNodes := g0.srcNodes ++ [(id, cur)] }
   let r : Except GErr GState :=
-    if c.withTypes && (inCanon G ty || c.withNoncanonicalTypes) then
-      annotateType G c g root cur (normT G.store ty) false (some (inCanon G ty)) else .ok g
+    if c.withTypes && (inCanon G (normT G.store ty) || c.withNoncanonicalTypes) then
+      annotateType G c g root cur (normT G.store ty) false (some (inCanon G (normT G.store ty))) else .ok g
   match r with
   | .error e => .error e
   | .ok g => .ok (addOrigin c origin g cur, cur)
